@@ -80,7 +80,7 @@ class Model:
         self.act = {r: None for r in self.compo}; self.res = {r: None for r in self.compo}
         self.on = False
         self.queue = []; self.prev = []
-        self.notes = []; self.lc = []; self.resolutions = []
+        self.notes = []; self.lc = []; self.resolutions = []; self.events = []
         self.targets = {}; self.cur_dest = None
         self.clear_req()
 
@@ -107,15 +107,24 @@ class Model:
             node = par
         return True
     def set_step(self, step):
-        self.ans.set_step(step); self.notes = []; self.lc = []; self.resolutions = []; self.exited_all = []; self.random_cases = []; self.utility_cases = []; self.payload_mismatch = []
+        self.ans.set_step(step); self.notes = []; self.lc = []; self.resolutions = []; self.events = []; self.exited_all = []; self.random_cases = []; self.utility_cases = []; self.payload_mismatch = []
 
     # scripted answers; an anonymous head has no user callbacks (the director keeps them out of resolutions)
+    # 'events': select()/rank()/utility() calls and resolutions in the order they happen (a resolution happens when select() has
+    # returned / when the last candidate has been evaluated / when the draw has been made)
+    def resolved(self, r):
+        self.resolutions.append(r); self.events.append(('r',) + tuple(r))
     def a_select(self, node):
         if self.headless(node): self.notes.append('select-on-anonymous-head'); return INVALID
+        self.events.append(('a', 1, node))
         return self.ans.select(node)
-    def a_rank(self, node): return 0 if self.headless(node) else self.ans.rank(node)
+    def a_rank(self, node):
+        if self.headless(node): return 0
+        self.events.append(('a', 2, node))
+        return self.ans.rank(node)
     def a_utility(self, node):
         if self.headless(node): self.notes.append('utility-of-anonymous-head'); return 1.0
+        self.events.append(('a', 3, node))
         return self.ans.utility(node)
 
     # ------------------------------------------------------------------ R1: targets of a request
@@ -199,11 +208,11 @@ class Model:
             self.want[node] = w; self.request_change(self.child(node, w), idx)
         elif s == 'Selectable':
             w = self.a_select(node); self.want[node] = w
-            self.resolutions.append(('select', node, w))
+            self.resolved(('select', node, w))
             if 'no-select-descent' not in self.dev: self.request_change(self.child(node, w), idx)
         elif s == 'Utilitarian':
             u, p = self.wide_report_change_util(node); self.want[node] = p
-            self.resolutions.append(('utility', node, p))
+            self.resolved(('utility', node, p))
         else:
             ranks, top = self.ranks(node)
             utils = [self.report_change(c) if ranks[i] == top else 0.0 for i, c in enumerate(self.kids(node))]
@@ -236,7 +245,7 @@ class Model:
             for c in self.kids(node): self.request_select(c, idx)
             return
         w = self.a_select(node); self.want[node] = w
-        self.resolutions.append(('select', node, w))
+        self.resolved(('select', node, w))
         if 'no-select-descent' not in self.dev: self.request_select(self.child(node, w), idx)
     def request_utilize(self, node, idx=None):
         kd = self.kind(node)
@@ -251,7 +260,7 @@ class Model:
             u = self.report_utilize(c); us.append(u)
             if best is None or u > best[0]: best = (u, i)
         self.want[node] = best[1]
-        self.resolutions.append(('utility', node, best[1])); self.utility_cases.append((node, us, best[1]))
+        self.resolved(('utility', node, best[1])); self.utility_cases.append((node, us, best[1]))
     def request_randomize(self, node, idx=None):
         kd = self.kind(node)
         self.pin(node, idx)
@@ -276,11 +285,11 @@ class Model:
                     cursor = f32(cursor - u)
                     if u > 0: last = i
                 else:
-                    self.resolutions.append(('random', node, i)); self.random_cases.append((node, list(utils), list(ranks), top, r, i))
+                    self.resolved(('random', node, i)); self.random_cases.append((node, list(utils), list(ranks), top, r, i))
                     return i
         self.notes.append('random-walk-fell-off')
         if 'random-none' in self.dev or last is None: return INVALID
-        self.resolutions.append(('random', node, last)); self.random_cases.append((node, list(utils), list(ranks), top, r, last))
+        self.resolved(('random', node, last)); self.random_cases.append((node, list(utils), list(ranks), top, r, last))
         return last
     def wide_report_change_util(self, node):
         best = None; us = []
@@ -297,6 +306,9 @@ class Model:
     def report_change(self, node):
         kd = self.kind(node)
         if kd == 'L': return self.a_utility(node)
+        sel_first = kd == 'C' and self.strat(node) == 'Selectable' and 'selectable-report-resumable' not in self.dev
+        if sel_first:
+            w_sel = self.a_select(node); self.resolved(('select', node, w_sel))    # select() is asked before the head's utility()
         h = self.a_utility(node)
         if kd == 'O':
             return f32(h * self.ortho_mean(node, self.report_change))
@@ -304,13 +316,12 @@ class Model:
         if st == 'Composite':
             self.want[node] = 0; s = self.report_change(self.kids(node)[0])
         elif st == 'Resumable' or st == 'Selectable':
-            if st == 'Selectable' and 'selectable-report-resumable' not in self.dev:
-                w = self.a_select(node); self.resolutions.append(('select', node, w))
+            if sel_first: w = w_sel
             else: w = self.res[node] if self.res[node] is not None else 0
             self.want[node] = w; s = self.report_change(self.child(node, w))
         elif st == 'Utilitarian':
             s, p = self.wide_report_change_util(node); self.want[node] = p
-            self.resolutions.append(('utility', node, p))
+            self.resolved(('utility', node, p))
         else:
             ranks, top = self.ranks(node)
             utils = [self.report_change(c) if ranks[i] == top else 0.0 for i, c in enumerate(self.kids(node))]
@@ -328,7 +339,7 @@ class Model:
             u = self.report_utilize(c); us.append(u)
             if best is None or u > best[0]: best = (u, i)
         self.want[node] = best[1]
-        self.resolutions.append(('utility', node, best[1])); self.utility_cases.append((node, us, best[1]))
+        self.resolved(('utility', node, best[1])); self.utility_cases.append((node, us, best[1]))
         return f32(h * best[0])
     def report_randomize(self, node):
         kd = self.kind(node)
